@@ -109,14 +109,42 @@ def step (st : Slots) (op : List String) : Slots × String :=
         (setSlot st d { underlay := a.underlay, overlay := b.overlay, signature := c.signature }, "ok")
       | _, _, _ => (st, "noslot")
     | _, _, _, _ => (st, "bad-op")
-  | ["save2", a, b, nid] | ["par", a, b, nid] =>
-    -- list-of-two / concurrent verification: decided by the Go-side oracle from the per-record verdicts of the
-    -- primitives (the model of one record is `parseAddress`, exercised by parse/ack/save); the state is unchanged
+  | ["par", a, b, nid] =>
+    -- concurrent verification: decided by the Go-side oracle from the per-record verdicts of the primitives (the
+    -- model of one call is `parseAddress`, exercised by parse/ack/save); the state is unchanged
     match Driver.parseNat a, Driver.parseNat b, Driver.parseNat nid with
     | some a, some b, some nid =>
       if nid ≥ 2 ^ 64 then (st, "bad-op") else
       match st.lookup a, st.lookup b with
       | some _, some _ => (st, "done")
+      | _, _ => (st, "noslot")
+    | _, _, _ => (st, "bad-op")
+  | ["save2", a, b, nid] =>
+    -- `saveUnderlay` on the two-entry list [a, b] (the list model of `Props/C34`: `C34_save_underlay_iff`), then the
+    -- address book as a map overlay ↦ last stored record: what does it hold under a's and under b's overlay?
+    match Driver.parseNat a, Driver.parseNat b, Driver.parseNat nid with
+    | some a, some b, some nid =>
+      if nid ≥ 2 ^ 64 then (st, "bad-op") else
+      match st.lookup a, st.lookup b with
+      | some ra, some rb =>
+        match annotBytes an "dataA", annot an "recA", annot an "uokA", annotBytes an "dataB", annot an "recB", annot an "uokB" with
+        | some dA, some rcA, some uA, some dB, some rcB, some uB =>
+          if dA ≠ signData ra.underlay ra.overlay nid ∨ dB ≠ signData rb.underlay rb.overlay nid then (st, "oracle-mismatch") else
+          let recA : Option Bytes := if rcA = "none" then none else Driver.hexToBytes rcA
+          let recB : Option Bytes := if rcB = "none" then none else Driver.hexToBytes rcB
+          let S : SigScheme Bytes :=
+            { recover := fun x y =>
+                if (x = ra.signature ∧ y = dA) ∨ (y = ra.signature ∧ x = dA) then recA
+                else if (x = rb.signature ∧ y = dB) ∨ (y = rb.signature ∧ x = dB) then recB else none,
+              overlayOf := id,
+              underlayOK := fun u => if u = ra.underlay then uA == "1" else if u = rb.underlay then uB == "1" else false }
+          let stored := saveUnderlay S nid [ra, rb]
+          let held := fun (o : Bytes) =>
+            match (stored.filter (fun r => r.overlay = o)).getLast? with
+            | none => "none"
+            | some r => if r = ra then "A" else if r = rb then "B" else "other"
+          (st, s!"a={held ra.overlay} b={held rb.overlay}")
+        | _, _, _, _, _, _ => (st, "bad-op")
       | _, _ => (st, "noslot")
     | _, _, _ => (st, "bad-op")
   | [what, s, nid] =>
